@@ -16,6 +16,9 @@ mod wire;
 mod worker;
 
 use report::Collector;
+
+#[global_allocator]
+static ALLOC: worker::Counting = worker::Counting;
 use serde_json::json;
 use std::time::Instant;
 
